@@ -163,6 +163,33 @@ func mkInterest(n enc.Name, cbp, mbf bool) *spec.Interest {
 	return &spec.Interest{NameV: n, CanBePrefixV: cbp, MustBeFreshV: mbf, NonceV: utils.IdPtr(uint32(1))}
 }
 
+// answers of earlier hits of this history, exactly as FindMatchingDataFromCS / Copy returned them
+type hit struct {
+	d    *spec.Data
+	w    []byte
+	text string
+}
+
+var hits []hit
+
+// hitsStable: "" while every earlier answer still is the packet it was, else " hs=0:<index>"
+func hitsStable() string {
+	for i, h := range hits {
+		ok := func() (ok bool) {
+			defer func() {
+				if recover() != nil {
+					ok = false
+				}
+			}()
+			return common.NameText(h.d.NameV)+" "+common.Hex(h.w) == h.text
+		}()
+		if !ok {
+			return " hs=0:" + strconv.Itoa(i)
+		}
+	}
+	return ""
+}
+
 func exec(op string) string {
 	f := common.Fields(op)
 	if f[0] != "new" && pc == nil {
@@ -176,6 +203,7 @@ func exec(op string) string {
 		pc = table.NewPitCS(func(table.PitEntry) {})
 		go func(c <-chan struct{}) { <-c }(pc.UpdateTimer()) // consume the single armed update signal
 		seen = map[string]enc.Name{}
+		hits = nil
 		return "ok"
 	case "ins":
 		wire := common.UnHex(f[3])
@@ -199,7 +227,7 @@ func exec(op string) string {
 		// (a hash shared by two distinct names is not reported here: it shows as a wrong answer or size)
 		seen[f[1]] = want
 		pc.InsertData(d, wire)
-		return strconv.Itoa(pc.CsSize())
+		return strconv.Itoa(pc.CsSize()) + hitsStable()
 	case "find":
 		n := common.ParseNameText(f[1])
 		e := pc.FindMatchingDataFromCS(mkInterest(n, f[2] == "1", f[3] == "1"))
@@ -209,6 +237,11 @@ func exec(op string) string {
 		d, w, err := e.Copy()
 		if err != nil || d == nil {
 			return "copy-error"
+		}
+		// the answer of a hit is handed to a face's send queue and may sit there while the store goes
+		// on admitting and evicting: it is kept (uncopied) and looked at again after every insertion
+		if len(hits) < 64 {
+			hits = append(hits, hit{d, w, common.NameText(d.NameV) + " " + common.Hex(w)})
 		}
 		return common.NameText(d.NameV) + " " + common.Hex(w)
 	case "cap":
